@@ -6,6 +6,8 @@ C25 driver.  Requests (fields separated by one space):
   rbd <views>                         reverse_by_depth
   rebase <views>                      _rebase_merge_depth
   touch <revs|-> <T|F> <views>        _filter_revisions_touching_path (modified revisions, include_merges)
+  enclosing <revs|-> <T|F> <views>    the stack-free specification of the same (`enclosingExpected`)
+  stepwise <views>                    do the depths go up by at most one per step (from depth 0 or 1)
   linear <graph> <tip|~> <start|~> <stop|~> <excl T|F>
   graph <graph> <tip|~> <start|~> <stop|~> <rebase T|F> <excl T|F>
   calc <graph> <tip|~> <start|~> <stop|~> <r|f> <genMerge T|F> <delayed T|F> <excl T|F>
@@ -66,11 +68,23 @@ def handle : List String → String
     match parseNatList m, parseBool inc, parseViews vs with
     | some m, some inc, some l => showViews (touching m inc l)
     | _, _, _ => "bad-op"
+  | ["enclosing", m, inc, vs] =>
+    match parseNatList m, parseBool inc, parseViews vs with
+    | some m, some inc, some l => showViews (enclosingExpected m inc l)
+    | _, _, _ => "bad-op"
+  | ["stepwise", vs] =>
+    match parseViews vs with
+    | some l => showBool (stepwise 1 l)
+    | none => "bad-op"
   | ["linear", g, tip, s, e, x] =>
     match parseGraph g, optNat' tip, optNat' s, optNat' e, parseBool x with
     | some g, some tip, some s, some e, some x =>
       (match linearView { g := g, tip := tip } s e x with
-        | some l => showViews l
+        | some l =>
+          -- the `(ghost_id, None, None)` tuple at the end of a walk that ran into a ghost
+          (match linearGhost { g := g, tip := tip } s e with
+            | some gh => (if l.isEmpty then "" else showViews l ++ ";") ++ s!"{gh}:~:~"
+            | none => showViews l)
         | none => "E:StartNotLinearAncestor")
     | _, _, _, _, _ => "bad-op"
   | ["graph", g, tip, s, e, rb, x] =>
@@ -80,6 +94,8 @@ def handle : List String → String
   | ["calc", g, tip, s, e, d, gm, dl, x] =>
     match parseGraph g, optNat' tip, optNat' s, optNat' e, dirOf d, parseBool gm, parseBool dl, parseBool x with
     | some g, some tip, some s, some e, some d, some gm, some dl, some x =>
+      -- a left-hand walk that runs into a ghost: only `_linear_view_revisions` itself is modelled there
+      if (linearGhost { g := g, tip := tip } s e).isSome && (!gm || dl) then "E:Unsupported" else
       showRes (match calcView { g := g, tip := tip } s e d gm dl x with
         | .ok (l, false) => .ok l
         | .ok (_, true) => .error .unsupported
@@ -88,7 +104,9 @@ def handle : List String → String
   | ["log", g, tip, s, e, d, lv, lim, x] =>
     match parseGraph g, optNat' tip, optNat' s, optNat' e, dirOf d, lv.toNat?, lim.toNat?, parseBool x with
     | some g, some tip, some s, some e, some d, some lv, some lim, some x =>
-      showRes (logRequest { g := g, tip := tip } s e d lv lim x)
+      if (linearGhost { g := g, tip := tip } s e).isSome && (lv == 1 || lim != 0 || s.isSome || e.isSome) then
+        "E:Unsupported"
+      else showRes (logRequest { g := g, tip := tip } s e d lv lim x)
     | _, _, _, _, _, _, _, _ => "bad-op"
   | _ => "bad-op"
 
